@@ -42,11 +42,19 @@ def scenarios(rng, quick):
     longin = [300] + [5, 300] * 30
     S.append(dict(name='parse_long', pre=['NEW 0'] + ca.define_lines(0, lst), target=['PARSE 0 0 %d %s' % (len(longin), ' '.join(map(str, longin)))], post_free=True, kind='parse'))
     S.append(dict(name='parse_long_all', pre=['NEW 0', 'SET 0 2 0', 'SET 0 0 2'] + ca.define_lines(0, lst), target=['PARSE 0 1 %d %s' % (len(longin), ' '.join(map(str, longin)))], post_free=True, kind='parse'))
+    # twins of the definition scenarios in which the previous call was made on another object
+    for sc in [x for x in S if x['kind'] in ('define', 'new')]:
+        S.append(dict(sc, name=sc['name'] + '_after_other', touch=True))
     return S, good
 
 
 def case_lines(cid, sc, witness, k):
     L = ['CASE %s' % cid, 'NEW 1'] + ca.define_lines(1, witness) + sc['pre']
+    if sc.get('touch'):
+        # the last library call before the failing one is made on the other object
+        w0 = witness['inputs'][0]
+        L.append('PARSE 1 0 %d %s' % (len(w0), ' '.join(map(str, w0))))
+    L.append('ERR 1')
     L.append('COUNTERS')
     L.append('FAILAT %d' % k)
     L += sc['target']
@@ -54,6 +62,7 @@ def case_lines(cid, sc, witness, k):
     L.append('COUNTERS')
     if sc['kind'] != 'new':
         L.append('ERR 0')
+    L.append('ERR 1')
     w = witness['inputs'][0]
     L.append('PARSE 1 0 %d %s' % (len(w), ' '.join(map(str, w))))
     L.append('FREEG0IFANY')
@@ -127,6 +136,12 @@ def run(pid, tier, seed, replay=None):
             strip = lambda ns: [{k: v for k, v in n.items() if k != 'name_block'} for n in (ns or [])]
             if (wp['rc'], wp['errs'], wp['amb'], strip(wp.get('nodes'))) != (bw['rc'], bw['errs'], bw['amb'], strip(bw.get('nodes'))):
                 bad = 'another grammar object parses differently after the failure'
+        if not bad:
+            errs = [o for o in ops if o['op'] == 'err']
+            # ERR ops in script order: witness before, [object 0], witness after
+            wb, wa = errs[0], errs[-1]
+            if {k: v for k, v in wb.items() if k != 'op'} != {k: v for k, v in wa.items() if k != 'op'}:
+                bad = 'the error state of another grammar object changed (%s -> %s)' % ({k: v for k, v in wb.items() if k != 'op'}, {k: v for k, v in wa.items() if k != 'op'})
         if bad:
             chk.violation(sig % 'result', 'request %d of %s fails: %s' % (k, sc['name'], bad), rep)
     chk.cov['rule'] = ('scenarios (create; define by callbacks / text, fresh and over an existing definition; parse in several configurations incl. all parses, cost, recovery; '
